@@ -451,10 +451,15 @@ class MaxAngle(Harness):
         for a in getattr(cosmo, "_seen", []):
             table.append((float(model_value(m, a)), float(model_value(m, cosmo.f(a)))))
         out["_cosmo"] = TableCosmology(table)
+        out["cosmo_table"] = [list(t) for t in table]
         return out
 
     def body(self, inp):
         cosmo = inp["_cosmo"]
+        if not hasattr(cosmo, "comoving_distance"):
+            from vf.stubs.cosmology import TableCosmology
+
+            cosmo = TableCosmology([tuple(t) for t in np.asarray(inp.get("cosmo_table", [])).reshape(-1, 2)])
         e = inp["edges"]
         if isinstance(e[0], SV):
             cosmo._seen = Engine_apps(cosmo)
@@ -580,12 +585,18 @@ class ProcessPair(Harness):
 
         out = concretise(m, {k: v for k, v in inp.items() if k != "_cosmo"})
         cosmo = inp["_cosmo"]
-        out["_cosmo"] = TableCosmology([(float(model_value(m, a)), float(model_value(m, cosmo.f(a)))) for a in getattr(cosmo, "_seen", [])])
+        table = [(float(model_value(m, a)), float(model_value(m, cosmo.f(a)))) for a in getattr(cosmo, "_seen", [])]
+        out["_cosmo"] = TableCosmology(table)
+        out["cosmo_table"] = [list(t) for t in table]
         return out
 
     def body(self, inp):
         B, S = self.B, self.S
         cosmo = inp["_cosmo"]
+        if not hasattr(cosmo, "comoving_distance"):
+            from vf.stubs.cosmology import TableCosmology
+
+            cosmo = TableCosmology([tuple(t) for t in np.asarray(inp.get("cosmo_table", [])).reshape(-1, 2)])
         e = inp["edges"]
         if isinstance(e[0], SV):
             cosmo._seen = Engine_apps(cosmo)
